@@ -344,6 +344,7 @@ def watchVerdict (env : Env) (pf : ParseFloat) (c : Cfg) (regs : List Reg) (manD
       let calls : List (List Str) :=
         (((step.getObjValAs? (Array Json) "registered").toOption.getD #[]).toList.map
           (fun j => (strList j).toOption.getD []))
+      if (step.getObjValAs? Bool "started").toOption != some true then (false, "update-lost:not-serving") else
       match calls.getLast? with
       | none => (false, "register-not-called")
       | some names =>
@@ -378,12 +379,14 @@ def watchH : Handler := fun inp impl => do
     let s' := Fabio.Model.C14Watch.run env pf acc.1 (evsOf tk.2 tk.1)
     (s', acc.2 ++ [s'])) (Fabio.Model.C14Watch.init, [])
   let mSteps := (texts.zip states).map (fun (t, s) => Json.mkObj [("text", str t), ("table", tableJson s.table),
-    ("registered", Json.arr ((Fabio.Model.C14Watch.collapse s.registered).map strArr).toArray)])
+    ("registered", Json.arr ((Fabio.Model.C14Watch.collapse s.registered).map strArr).toArray),
+    ("started", s.started)])
   let m := Json.mkObj [("steps", Json.arr mSteps.toArray)]
   let implSteps := ((impl.getObjValAs? (Array Json) "steps").toOption.getD #[]).toList
   let agreeStep (ms is : Json) : Bool :=
     getStrD is "text" == getStrD ms "text" && closeJson (objOr ms "table" |> fun t => Json.mkObj [("table", t)]) is &&
-    (is.getObjVal? "registered").toOption == (ms.getObjVal? "registered").toOption
+    (is.getObjVal? "registered").toOption == (ms.getObjVal? "registered").toOption &&
+    (is.getObjVal? "started").toOption == (ms.getObjVal? "started").toOption
   let agree := implSteps.length == mSteps.length && (mSteps.zip implSteps).all (fun (a, b) => agreeStep a b)
   -- the property, step by step; the manual text in force at a step is the last one delivered
   let manAt (k : Nat) : Option Json := ((List.range (k+1)).reverse.findSome? (fun j =>
